@@ -13,12 +13,15 @@ import (
 	"fmt"
 	"github.com/datastax/go-cassandra-native-protocol/datatype"
 	"github.com/datastax/go-cassandra-native-protocol/message"
+	"math/big"
+	"os"
 	"reflect"
 	"runtime"
 	"strings"
 	"sync"
 	"sync/atomic"
 	"testing"
+	"time"
 
 	"github.com/datastax/go-cassandra-native-protocol/compression/lz4"
 	"github.com/datastax/go-cassandra-native-protocol/compression/snappy"
@@ -58,11 +61,28 @@ func digestBytes(b []byte) string { return fmt.Sprintf("%d:%016x", len(b), stats
 func c18DrawItem(rt *rapid.T, i int) *c18Item {
 	label := fmt.Sprintf("item%d", i)
 	v := gen.Version(rt)
-	kind := rapid.IntRange(0, 8).Draw(rt, label+"/kind")
+	kind := rapid.IntRange(0, 9).Draw(rt, label+"/kind")
 	if kind == 8 && !gen.AtLeast(v, 3) {
 		kind = 4
 	}
 	switch kind {
+	case 9: // a header the shared codec must refuse; what the error SAYS belongs to this call (version, flags)
+		hv := rapid.SampledFrom([]byte{0x00, 0x01, 0x06, 0x07, 0x21, 0x40, 0x43, 0x7f}).Draw(rt, label+"/badVersion")
+		resp := rapid.Bool().Draw(rt, label+"/response")
+		flags := rapid.SampledFrom([]byte{0x00, 0x10, 0x02, 0x1f}).Draw(rt, label+"/flags")
+		hdr := []byte{hv, flags, 0, byte(i), 0x05, 0, 0, 0, 0}
+		if resp {
+			hdr[0] |= 0x80
+			hdr[4] = 0x02
+		}
+		codec := sharedFrame[compNone]
+		bad := frame.NewFrame(primitive.ProtocolVersion(hv), int16(i), &message.Options{})
+		return &c18Item{name: "refused-header", run: func() (string, error) {
+			_, derr := codec.DecodeHeader(bytes.NewReader(hdr))
+			var buf bytes.Buffer
+			eerr := codec.EncodeFrame(bad, &buf)
+			return fmt.Sprintf("decode: %v | encode: %v", derr, eerr), nil
+		}}
 	case 8: // a user-defined type written from and read into a Go struct type that did not exist before
 		nf := rapid.IntRange(1, 4).Draw(rt, label+"/fields")
 		fts := make([]datatype.DataType, nf)
@@ -309,6 +329,16 @@ func lz4Safe(f *frame.Frame, comp compKind) compKind {
 	return comp
 }
 
+// stringRep: the Go string representation of a scalar type, if the generator knows one for it.
+func stringRep(dt datatype.DataType) *gen.Rep {
+	for _, k := range gen.ScalarRepKinds(dt.Code()) {
+		if k == "string" {
+			return &gen.Rep{Kind: "string", ArrLen: -1}
+		}
+	}
+	return nil
+}
+
 var freshCounter atomic.Int64
 
 // freshStructs renames the fields of every struct representation of a UDT so that reflect.StructOf yields a type that did
@@ -371,6 +401,58 @@ func c18Property(rt *rapid.T) {
 				it.want = want
 			}
 			items[g] = append(items[g], it)
+		}
+	}
+	// a group: every goroutine also works on the SAME scalar codec through the SAME Go representation, on a few values that
+	// recur across goroutines (what a codec remembers from one call must not leak into another caller's result)
+	if rapid.Bool().Draw(rt, "group") {
+		gv := gen.Version(rt)
+		dt := gen.ValueType(rt, gv, 0, "group/type")
+		rep := gen.DrawRep(rt, dt, false, "group/rep")
+		rep.Iface = false
+		if rapid.Bool().Draw(rt, "group/string") {
+			// the textual representation where the type has one
+			if r2 := stringRep(dt); r2 != nil {
+				rep = r2
+			}
+		}
+		nvals := rapid.IntRange(2, 3).Draw(rt, "group/nvals")
+		vals := make([]gen.AV, nvals)
+		for k := range vals {
+			vals[k] = gen.DrawAV(rt, dt, rep, gv, false, fmt.Sprintf("group/v%d", k))
+		}
+		codec, err := datacodec.NewCodec(dt) // scalar types: the package-level singleton
+		if err != nil {
+			rt.Fatalf("NewCodec: %v", err)
+		}
+		for g := range items {
+			for k := 0; k < 2; k++ {
+				av := vals[(g+k)%nvals]
+				it := &c18Item{name: "group/" + dt.AsCql() + "/" + rep.Kind, run: func() (string, error) {
+					enc, err := codec.Encode(gen.ToGo(av, dt, rep).Interface(), gv)
+					if err != nil {
+						return "", err
+					}
+					dest := reflect.New(topDestType(rep))
+					if _, err := codec.Decode(enc, dest.Interface(), gv); err != nil {
+						return "", err
+					}
+					got, err := gen.FromGo(dest.Elem(), dt)
+					if err != nil {
+						return "", err
+					}
+					return gen.RenderAV(dt, got), nil
+				}}
+				if !cold {
+					want, err := it.run()
+					if err != nil {
+						continue
+					}
+					it.want = want
+				}
+				items[g] = append(items[g], it)
+				n++
+			}
 		}
 	}
 	yields := rapid.SliceOfN(rapid.IntRange(0, 3), m, m).Draw(rt, "yields")
@@ -444,3 +526,133 @@ func c18Property(rt *rapid.T) {
 func TestC18(t *testing.T) { rapid.Check(t, c18Property) }
 
 var _ = primitive.ProtocolVersion4
+
+// Cold processes: whatever the library initialises lazily on first use (lookup tables, caches, pools) is initialised here by
+// 16 goroutines at once, in a process that has done nothing else yet. Each goroutine records what it got; afterwards the same
+// calls are made one after the other and must give the same results. Built with -race like the rest of C18: a report in the
+// fresh process fails the case.
+func c18ColdHandler(args []string, _ []byte) string {
+	const g = 16
+	type op struct {
+		name string
+		run  func(k int) string
+	}
+	payload := func(k int) []byte { return gen.Expand(k%4, uint64(k)+1, 50+37*k) }
+	ops := []op{
+		{"segment/plain", func(k int) string {
+			var buf bytes.Buffer
+			c := segment.NewCodec()
+			if err := c.EncodeSegment(&segment.Segment{Header: &segment.Header{IsSelfContained: k%2 == 0}, Payload: &segment.Payload{UncompressedData: payload(k)}}, &buf); err != nil {
+				return "err:" + err.Error()
+			}
+			enc := append([]byte{}, buf.Bytes()...)
+			d, err := c.DecodeSegment(bytes.NewReader(enc))
+			if err != nil {
+				return "err:" + err.Error()
+			}
+			return digestBytes(enc) + "/" + digestBytes(d.Payload.UncompressedData)
+		}},
+		{"segment/lz4", func(k int) string {
+			var buf bytes.Buffer
+			c := segment.NewCodecWithCompression(lz4.Compressor{})
+			if err := c.EncodeSegment(&segment.Segment{Header: &segment.Header{IsSelfContained: true}, Payload: &segment.Payload{UncompressedData: payload(k)}}, &buf); err != nil {
+				return "err:" + err.Error()
+			}
+			enc := append([]byte{}, buf.Bytes()...)
+			d, err := c.DecodeSegment(bytes.NewReader(enc))
+			if err != nil {
+				return "err:" + err.Error()
+			}
+			return digestBytes(enc) + "/" + digestBytes(d.Payload.UncompressedData)
+		}},
+		{"frame", func(k int) string {
+			comp := []compKind{compNone, compLz4, compSnappy}[k%3]
+			c := newRawCodec(comp)
+			f := frame.NewFrame(primitive.ProtocolVersion4, int16(k), &message.Query{Query: fmt.Sprintf("SELECT %d FROM t WHERE k = ? AND j = ? %s", k, strings.Repeat("x", k))})
+			f.SetCompress(comp != compNone)
+			enc, err := encodeFrame(c, f)
+			if err != nil {
+				return "err:" + err.Error()
+			}
+			d, err := c.DecodeFrame(bytes.NewReader(enc))
+			if err != nil {
+				return "err:" + err.Error()
+			}
+			d.Header.BodyLength = 0
+			return digestBytes(enc) + "/" + fmt.Sprintf("%016x", canon.Hash(d))
+		}},
+		{"values", func(k int) string {
+			out := ""
+			for _, c := range []struct {
+				codec datacodec.Codec
+				v     interface{}
+			}{{datacodec.Varint, int64(-k * 1000003)}, {datacodec.Timestamp, int64(k) * 86400000}, {datacodec.Decimal, datacodec.CqlDecimal{Unscaled: big.NewInt(int64(k) - 7), Scale: int32(k)}},
+				{datacodec.Uuid, fmt.Sprintf("%08x-0000-1000-8000-00805f9b34fb", k)}, {datacodec.Date, int32(k)}, {datacodec.Duration, datacodec.CqlDuration{Months: int32(k), Days: 1, Nanos: 5}}} {
+				b, err := c.codec.Encode(c.v, primitive.ProtocolVersion4)
+				if err != nil {
+					return "err:" + err.Error()
+				}
+				var any interface{}
+				if _, err := c.codec.Decode(b, &any, primitive.ProtocolVersion4); err != nil {
+					return "err:" + err.Error()
+				}
+				out += fmt.Sprintf("%x=%v;", b, any)
+			}
+			return out
+		}},
+	}
+	results := make([][]string, g)
+	var ready, wg sync.WaitGroup
+	start := make(chan struct{})
+	ready.Add(g)
+	for k := 0; k < g; k++ {
+		wg.Add(1)
+		go func(k int) {
+			defer wg.Done()
+			ready.Done()
+			<-start
+			for _, o := range ops {
+				results[k] = append(results[k], o.run(k))
+			}
+		}(k)
+	}
+	ready.Wait()
+	close(start)
+	wg.Wait()
+	for k := 0; k < g; k++ {
+		for i, o := range ops {
+			if want := o.run(k); want != results[k][i] {
+				return fmt.Sprintf("FAIL: %s (goroutine %d of %d starting together in a fresh process): concurrent first use gave %s, the same call made afterwards on its own gives %s", o.name, k, g, clipS(results[k][i]), clipS(want))
+			}
+		}
+	}
+	return "OK"
+}
+
+func init() { workerHandlers["c18cold"] = c18ColdHandler }
+
+func TestC18ColdProcess(t *testing.T) {
+	rec := stats.For("C18")
+	n := 6
+	if thorough() {
+		n = 60
+	}
+	for i := 0; i < n; i++ {
+		resp, stderr, err := runFreshWorker("c18cold", nil, nil, 8, 5*time.Minute)
+		switch {
+		case strings.Contains(stderr, "WARNING: DATA RACE"):
+			t.Fatalf("data race during concurrent first use in a fresh process:\n%s", lastLines(stderr, 60))
+		case strings.HasPrefix(resp, "FAIL:"):
+			t.Fatalf("%s", resp)
+		case resp != "OK":
+			if err != nil && (strings.Contains(stderr, "out of memory") || strings.Contains(err.Error(), "did not finish")) {
+				rec.Class("cold-process:skipped(resource)", 1)
+				continue
+			}
+			t.Fatalf("fresh process failed: %v\n%s", err, lastLines(stderr, 40))
+		}
+		rec.Case(true, stats.HashString(fmt.Sprintf("cold/%d/%d", i, os.Getpid())), func() string {
+			return "fresh process: 16 goroutines x {segment, LZ4 segment, frame x 3 compressors, 6 value codecs} first used concurrently, then compared with the same calls made alone"
+		}, "cold-process")
+	}
+}
